@@ -75,7 +75,27 @@ impl<'a> G<'a> {
         if d == 0 {
             return if !ints.is_empty() && self.r.chance(1, 2) { self.r.pick(&ints).clone() } else { self.lit() };
         }
-        match self.r.below(35) {
+        match self.r.below(37) {
+            35 => {
+                // generic functions instantiated at several types
+                self.feat("generic");
+                let (a, b2) = (self.int(d - 1), self.int(d - 1));
+                match self.r.below(3) {
+                    0 => format!("{{ gid = #<'t>'t {{ $ }}, [{a} gid, 0x01 gid] .0 | 0 }}"),
+                    1 => format!("{{ gsw = #<'a, 'b>['a, 'b] {{ [$1, $0] }}, [0x02, {a}] gsw .0 | 0 }}"),
+                    _ => format!("{{ gap = #<'t>['t, #'t -> 'int] {{ =[gv, gf], gv gf }}, [{a}, #'int {{ [~, {b2}] __integer_add__ }}] gap | 0 }}"),
+                }
+            }
+            36 => {
+                // closures created inside a branch, capturing pattern bindings, a derived local and
+                // another closure
+                self.feat("closure-in-branch");
+                let (a, b2, c) = (self.int(d - 1), self.int(d - 1), self.int(d - 1));
+                match self.r.below(2) {
+                    0 => format!("[{a}, {b2}] {{ =[bu, bv] => {{ bw = [bu, bv] __integer_add__, bf = #'int {{ [~, bu, bw] .2 }}, {c} bf }} }}"),
+                    _ => format!("{{ ba = {a}, bf = #'int {{ [~, ba] __integer_add__ }}, bg = #'int {{ [~ bf, ba] __integer_multiply__ }}, bh = #'int {{ ~ bg bf }}, {b2} bh | 0 }}"),
+                }
+            }
             33 | 34 => {
                 // a closure that uses the same outer variable both whole and through a field / index
                 // path (two captures with a common base)
